@@ -16,17 +16,18 @@ func init() {
 // retLeaf is one value a function may return (result index idx) together with the block control comes from.
 type retLeaf struct {
 	v  ssa.Value
-	b  *ssa.BasicBlock
+	b  *ssa.BasicBlock // block control comes from
+	to *ssa.BasicBlock // block of the phi that selected v (nil when v is returned directly)
 	in *ssa.Return
 }
 
 func returnLeaves(fn *ssa.Function, idx int) []retLeaf {
 	var out []retLeaf
-	var rec func(v ssa.Value, b *ssa.BasicBlock, r *ssa.Return, d int)
-	rec = func(v ssa.Value, b *ssa.BasicBlock, r *ssa.Return, d int) {
+	var rec func(v ssa.Value, b, to *ssa.BasicBlock, r *ssa.Return, d int)
+	rec = func(v ssa.Value, b, to *ssa.BasicBlock, r *ssa.Return, d int) {
 		if ph, ok := v.(*ssa.Phi); ok && d < 20 {
 			for i, e := range ph.Edges {
-				rec(e, ph.Block().Preds[i], r, d+1)
+				rec(e, ph.Block().Preds[i], ph.Block(), r, d+1)
 			}
 			return
 		}
@@ -43,19 +44,19 @@ func returnLeaves(fn *ssa.Function, idx int) []retLeaf {
 					}
 				}
 				if last != nil {
-					rec(last.Val, b, r, d+1)
+					rec(last.Val, b, to, r, d+1)
 					return
 				}
 			}
 		}
-		out = append(out, retLeaf{v, b, r})
+		out = append(out, retLeaf{v, b, to, r})
 	}
 	eachInstr(fn, func(in ssa.Instruction) {
 		if r, ok := in.(*ssa.Return); ok && idx < len(r.Results) {
 			if fn.Recover != nil && r.Block() == fn.Recover {
 				return // the panic-recovery exit returns the (zero or already assigned) named results
 			}
-			rec(r.Results[idx], r.Block(), r, 0)
+			rec(r.Results[idx], r.Block(), nil, r, 0)
 		}
 	})
 	return out
